@@ -252,6 +252,21 @@ Section NbrStatements.
       repeat split; reflexivity.
   Qed.
 
+  (* ---- KnownClass 1 of C20 (topology-ndim-over-64) seen through the instruction:
+     65 or more dimensions after clamping (so 65 or more cells): None, nothing pushed ---- *)
+  Lemma known_large_ndim_instr_lemma p (s : state) (size index dims : Z) (rest : list Z) (fv : f32) (frest : list f32) :
+    st_int s = size :: index :: dims :: rest ->
+    st_float s = fv :: frest ->
+    size <= max32 ->
+    65 <= Z.max (Z.min (Z.max size 0) dims) 0 ->
+    list_neighbor_ids p s = Ok (set_float (set_int s rest) frest).
+  Proof.
+    intros Hi Hf Hs Hd.
+    pose proof (neighbor_ids_eq p s size index dims rest fv frest Hi Hf) as E. cbv zeta in E.
+    rewrite E, known_large_ndim_lemma; [reflexivity| |exact Hd].
+    unfold max32 in Hs. unfold two64. lia.
+  Qed.
+
   (* ---- the registry binds the four names to these bodies; one interpreter step runs the body ---- *)
   Lemma lookup_nbr_ids : lookup full_registry (s2l "LIST.NEIGHBOR*IDS"%string) = Some (purep list_neighbor_ids).
   Proof. reflexivity. Qed.
